@@ -66,7 +66,10 @@ Check(R) ==     \* R: id -> row record, bound once
    clauses |->
   [\* an explicit calibration error (after the final predictions) is what C11 prescribes when a fold accepts no target; with
    \* integer raw scores CalibError checks that it is raised exactly then, with real-valued learners it is taken as given
-   Completed |-> T.raised = "" \/ LegitTrainError \/ (T.calib_error /\ T.raised_type = "RuntimeError" /\ Len(T.preds) > 0),
+   \* ... and so is the explicit refusal to start training when no target passes train_fdr under the initial direction
+   \* (Model.fit: "No PSMs accepted at train_fdr=..."), raised before any final prediction
+   Completed |-> T.raised = "" \/ LegitTrainError \/ (T.calib_error /\ T.raised_type = "RuntimeError" /\ Len(T.preds) > 0)
+                 \/ (T.start_error /\ T.raised_type = "RuntimeError" /\ Len(T.preds) = 0),
    ExactlyFolds |-> Done => (Cardinality(Models) = T.folds /\ \A m \in Models, f \in Files : Held(m, f) # {}),
    Partition |-> Done => /\ \A f \in Files : UNION {Held(m, f) : m \in Models} = IdsOf(f)
                          /\ PredCount = Cardinality(Ids)                                    \* every row scored once
